@@ -1630,3 +1630,9 @@ M("C20-array-size-of-placeholder-is-one", "C20", "src/interrogatedb/interrogateT
 M("C20-benign-array-size-default-zero", "C20", "src/interrogatedb/interrogateType.I",
   "  return is_array() ? _array_size : 0;", "  return (_flags & F_array) != 0 ? _array_size : 0;",
   benign=True)
+
+# ---------------------------------------------------------------- R15.21 (F-C15q)
+MUTANTS.append({"id": "C15-constructor-lookup-in-namespace-scope", "prop": "C15", "expect": "R15.21|CPPIdentifier::find_symbol", "benign": False,
+  "edits": [("src/cppparser/cppIdentifier.cxx",
+             "CPPPreprocessor *error_sink) const {\n  CPPScope *scope = get_scope(current_scope, global_scope, error_sink);\n  if (scope == nullptr) {\n    return nullptr;\n  }\n\n  CPPDeclaration *sym;\n  if (!_names.back().has_templ()) {\n    if (_names.size() > 1 && scope->get_struct_type() != nullptr &&\n        scope->get_simple_name() == get_simple_name()) {",
+             "CPPPreprocessor *error_sink) const {\n  CPPScope *scope = get_scope(current_scope, global_scope, error_sink);\n  if (scope == nullptr) {\n    return nullptr;\n  }\n\n  CPPDeclaration *sym;\n  if (!_names.back().has_templ()) {\n    if (_names.size() > 1 &&\n        scope->get_simple_name() == get_simple_name()) {")]})
